@@ -71,7 +71,7 @@ def gen_faulty(rng):
     labels = []
     root = gen_lines(rng, rng.randrange(3, 10), labels, "r")
     inc = gen_lines(rng, rng.randrange(2, 7), labels, "i")
-    kinds = ["unknown_instr", "undefined_symbol", "out_of_range", "duplicate_label", "malformed", "missing_operand"]
+    kinds = ["unknown_instr", "undefined_symbol", "out_of_range", "duplicate_label", "malformed", "missing_operand", "multiline"]
     kind = rng.choice(kinds)
     in_inc = rng.random() < 0.4
     target = inc if in_inc else root
@@ -100,10 +100,29 @@ def gen_faulty(rng):
         line = rng.choice(["    #d8 1 +", "    #res", "    #addr", "    #align", "    #d8 (1 +", "    #d8 1 *"]) + comment
     else:
         line = rng.choice(["    #d8 ,", "    #d8 (1", "    #bogus 1", "    #res 1 2", "    ld 1 +", "    #d8 1 2", "    #align )", "    #addr 1,"]) + comment
-    target.insert(idx, (line, "FAULT"))
+    if kind == "multiline":
+        # a block written over several lines whose fault is on an inner line (not the first one)
+        which = rng.randrange(3)
+        if which == 0:
+            fields = ["    #addr 0x100", "    #size 0x10", "    #outp 0"]
+            bad = rng.choice(["    #sizee 4", "    #adr 1", "    #outpt 8", "    #bitz 8"])
+            k = rng.randrange(1, len(fields) + 1)
+            block = [("#bankdef faultbank", "x"), ("{", "x")] + [(f, "x") for f in fields[:k]] + [(bad + comment, "FAULT")] + [(f, "x") for f in fields[k:]] + [("}", "x")]
+        elif which == 1:
+            block = [("#ruledef", "x"), ("{", "x"), ("    okone {v: u8} => 0x20 @ v", "x"), (rng.choice(["    bad {v: u8} 0x21 @ v", "    bad {v: } => 0x21", "    => 0x22"]) + comment, "FAULT"),
+                     ("    oktwo => 0x23", "x"), ("}", "x")]
+        elif which == 2:
+            block = [("#if 1 == 1", "x"), ("{", "x"), ("    #d8 1", "x"), (rng.choice(["    #d8 ,", "    #bogus 3", "    #d8 (2"]) + comment, "FAULT"), ("    #d8 3", "x"), ("}", "x")]
+        block = [(t, ("blk0" if j == 0 else k if k == "FAULT" else "blk")) for j, (t, k) in enumerate(block)]
+        for j, ent in enumerate(block):
+            target.insert(idx + j, ent)
+    else:
+        target.insert(idx, (line, "FAULT"))
     if kind == "missing_operand":
         target.insert(idx + 1, ("    #d8 0x12", "data"))
-    inc_pos = rng.randrange(len(root) + 1)
+    # (the include line never splits a multi-line block)
+    allowed = [q for q in range(len(root) + 1) if q == len(root) or not (root[q][1] == "blk" or (kind == "multiline" and root[q][1] == "FAULT"))]
+    inc_pos = rng.choice(allowed)
     root.insert(inc_pos, ('#include "inc.asm"', "include"))
     root_text = RULES + "\n".join(t for t, _ in root) + "\n"
     inc_text = "\n".join(t for t, _ in inc) + "\n"
